@@ -77,7 +77,8 @@ class CleanSem(Semantics):
 def run(ctx):
     idx = ctx.index
     res = ctx.resolver
-    clean = idx.func("gwf.plugins.clean:clean")
+    from ..inline import inlined
+    clean = inlined(ctx, idx.func("gwf.plugins.clean:clean"), keep={"_delete_file", "_format_size"})
     ccon = f"{clean.module.relpath}::{clean.qual}"
 
     # ---------------- R1 provenance of every delete
@@ -199,8 +200,8 @@ def run(ctx):
         isinstance(c.func, ast.Attribute) and c.func.attr == "invalidate" for c in _calls(n)) for n in walk_no_nested(clean.node))
     r4.check(with_ok, ccon + "::with", "invalidations happen inside the with-block of the hash store (saved on exit)",
              "the invalidations are not enclosed by the with-block of the spec-hash store", clean.where)
-    rule_exit_persists(ctx, r4)
-    rule_close_writes(ctx, r4)
+    rule_exit_persists(ctx, r4, ("spec hashes",))
+    rule_close_writes(ctx, r4, ("spec hashes",))
     # FileSpecHashes.invalidate removes the record of target.name, tolerating a missing one
     inv = idx.func("gwf.core:FileSpecHashes.invalidate")
     txt = ast.unparse(inv.node)
